@@ -65,7 +65,9 @@ def _apply_null_facts(env, facts):
             else:
                 rest = {d for d in env[name] if d != ("const", None)}
                 if rest:
-                    env[name] = rest
+                    # a parameter known not to be None here keeps that knowledge (`param:#i!`): when the callers' arguments are followed into
+                    # the callee, the alternative None does not reach this point
+                    env[name] = {(d + ("nn",) if d[0] == "param" and len(d) == 2 else d) for d in rest}
 
 
 def _peeked(d):
@@ -99,9 +101,10 @@ def _subst(d, old, new):
 class Site:
     """One call expression of interest with the environment that reaches it."""
 
-    def __init__(self, node, env, fn, ordinal, guards, args=(), kws=None):
+    def __init__(self, node, env, fn, ordinal, guards, args=(), kws=None, ctx=()):
         self.node, self.env, self.fn, self.ordinal, self.guards = node, env, fn, ordinal, guards
         self.args, self.kws = list(args), dict(kws or {})
+        self.ctx = tuple(ctx)      # call sites through which an in-place interpreted helper / nested function was entered
 
 
 class FnWiring:
@@ -235,8 +238,10 @@ class FnWiring:
         is_self_call = isinstance(f, ast.Attribute) and isinstance(f.value, ast.Name) and f.value.id == self.selfname
         if is_self_call and f.attr in INLINE and self._inline_depth < 3 and f.attr != self.fn.name:
             return self._inline(e, f.attr, args, kws, env, guards)
+        if isinstance(f, ast.Name) and f.id in getattr(self, "localfns", {}) and self._inline_depth < 3 and INLINE_LOCAL:
+            return self._inline(e, f.id, args, kws, env, guards, local=self.localfns[f.id])
         ords = self._ord(e, env)
-        self.sites.append(Site(e, _copy_env(env), self.fn, ords[0], guards, args, kws))
+        self.sites.append(Site(e, _copy_env(env), self.fn, ords[0], guards, args, kws, ctx=getattr(self, "_inline_ctx", ())))
         e._args, e._kws = args, kws
         if is_self_call:
             m = f.attr
@@ -280,13 +285,18 @@ class FnWiring:
             return {("mcall", d, f.attr, cargs) for d in base}
         return {("opaque", S.unparse(e)[:60])}
 
-    def _inline(self, e, m, args, kws, env, guards):
+    def _inline(self, e, m, args, kws, env, guards, local=None):
         """A private helper the reviewed reference does not know (extracted after the review): its body is interpreted in place, so the
-        caller's wiring is what it was before the extraction."""
-        callee = METHODS[m]
-        params = callee.args.args[1:]
+        caller's wiring is what it was before the extraction.  (local: a nested function - it sees the variables of the enclosing call, and
+        reads the same whether it stays a closure or becomes a method that is handed those variables as arguments.)"""
+        callee = local if local is not None else METHODS[m]
+        params = callee.args.args[1:] if local is None else callee.args.args
         defaults = dict(zip([p_.arg for p_ in reversed(params)], reversed(callee.args.defaults)))
         env2 = {"$cnt": env.setdefault("$cnt", {}), "$pend": set()}
+        if local is not None:
+            for k_, v_ in env.items():
+                if not k_.startswith("$"):
+                    env2[k_] = set(v_) if isinstance(v_, set) else v_
         for i, p_ in enumerate(params):
             if i < len(args):
                 env2[p_.arg] = set(args[i])
@@ -298,14 +308,19 @@ class FnWiring:
                 env2[p_.arg] = {("opaque", "missing argument")}
         saved_ret, saved_fnname = self.returns, self.selfname
         self.returns = []
-        self.selfname = callee.args.args[0].arg if callee.args.args else self.selfname
+        if local is None:
+            self.selfname = callee.args.args[0].arg if callee.args.args else self.selfname
         self._inline_depth += 1
         # the first token the helper consumes is the one its caller was looking at: the caller's look-ahead facts at this call apply to it
-        self._first_tok_restr = frozenset(CALL_LA.get((m, e.lineno), ())) or None
+        self._first_tok_restr = (frozenset(CALL_LA.get((m, e.lineno), ())) or None) if local is None else None
         self._env_stack = getattr(self, "_env_stack", []) + [env]
+        saved_ctx = getattr(self, "_inline_ctx", ())
+        if local is not None:
+            self._inline_ctx = saved_ctx + ((e.lineno, e.col_offset),)     # each call of a nested function is a construction site of its own
         try:
             out = self.block(callee.body, env2, guards)
         finally:
+            self._inline_ctx = saved_ctx
             self._env_stack = self._env_stack[:-1]
             self._inline_depth -= 1
             rets, self.returns, self.selfname = self.returns, saved_ret, saved_fnname
@@ -588,6 +603,7 @@ def field_args(site, fields):
 
 
 TOKSITES = None
+INLINE_LOCAL = True      # nested functions are interpreted at their call sites
 
 
 def simplify(d):
@@ -612,7 +628,7 @@ def simplify(d):
     if k == "const":
         return repr(d[1])
     if k == "param":
-        return f"param:{d[1]}"
+        return f"param:{d[1]}" + ("!" if len(d) > 2 else "")
     if k == "ctor":
         return f"new:{d[1]}#{d[2]}"
     if k in ("list", "tuple"):
